@@ -287,11 +287,21 @@ func eqStackMerge(c *Ctx, a *flAgg) {
 		}
 		pos := pathPos(p, fn)
 		res := p.Results[0]
+		resName := res.String()
 		if res.Op != OpAlloc {
-			a.bad("EF-fresh-merge", "Stack.merge/result", "the merged stack is not a new object", pos)
-			continue
+			// returned by value: the value of a local struct built in this call is as new as a pointer to it
+			local := false
+			for al := range p.Allocs {
+				if strings.TrimPrefix(al, "&") == resName {
+					local, resName = true, al
+				}
+			}
+			if !local {
+				a.bad("EF-fresh-merge", "Stack.merge/result", "the merged stack is not a new object", pos)
+				continue
+			}
 		}
-		cells := allocCells(p, res.String())
+		cells := allocCells(p, resName)
 		calls := cells["Calls"]
 		if calls == nil || calls.Op != OpMakeSlice || calls.Args[0].String() != "len("+q.l+".Calls)" {
 			a.bad("EF-fresh-merge", "Stack.merge/calls", "the merged frames are not a new slice of the left stack's length", pos)
@@ -407,7 +417,11 @@ func eqSignatureMerge(c *Ctx, a *flAgg) {
 		}
 		stv := cells["Stack"]
 		okStack := false
-		if ad := loadOf(stv); ad != nil && ad.Op == OpCall && ad.Fn != nil && shortFn(ad.Fn) == "Stack.merge" && len(ad.Args) == 3 && ad.Args[1].String() == "&"+ls+".Stack" && ad.Args[2].String() == "&"+rs+".Stack" {
+		ad := loadOf(stv)
+		if ad == nil {
+			ad = stv // Stack.merge returning the stack by value
+		}
+		if ad != nil && ad.Op == OpCall && ad.Fn != nil && shortFn(ad.Fn) == "Stack.merge" && len(ad.Args) == 3 && ad.Args[1].String() == "&"+ls+".Stack" && ad.Args[2].String() == "&"+rs+".Stack" {
 			okStack = true
 		}
 		if okStack {
